@@ -12,9 +12,14 @@ import (
 // and strings that need no escape, suffix-sharing (also case-variant) names, several questions.
 // withOpt adds an OPT record with plain-length options at a generated position.
 func PlainMsg(t *rapid.T, maxRecs int, withOpt bool) wm.Msg {
+	return PlainMsgOf(t, maxRecs, withOpt, PlainTypes)
+}
+
+// PlainMsgOf is PlainMsg over the given types.
+func PlainMsgOf(t *rapid.T, maxRecs int, withOpt bool, types []uint16) wm.Msg {
 	mo := &MsgOpts{Share: true, MaxQ: 3, MaxRecs: maxRecs, NoOPT: true}
 	mo.Plain = true
-	mo.Types = PlainTypes
+	mo.Types = types
 	m := Msg(t, mo)
 	if withOpt && rapid.IntRange(0, 1).Draw(t, "plainopt") == 0 {
 		o := &Opts{Plain: true}
